@@ -116,6 +116,23 @@ func hasZeroXLimbs(in *ctInputs) bool {
 	return false
 }
 
+// hasZeroLowXLimb reports whether any point input has a zero lowest X limb (without X being
+// all zero): the second witness class of known finding K1 - checkInitialized's struct == is
+// compiled to a memory comparison that stops at the first differing word, so its instruction
+// trace depends on how many leading limbs of X are zero.
+func hasZeroLowXLimb(in *ctInputs) bool {
+	if !raw.PointOK() {
+		return false
+	}
+	for _, p := range in.Pts {
+		l := raw.PointLimbs(p)
+		if l[0][0] == 0 && l[0] != [5]uint64{} {
+			return true
+		}
+	}
+	return false
+}
+
 func pointOp1(name string, f func(v, p *edwards25519.Point)) ctOp {
 	return ctOp{name: name, gen: func(r *gen.Rand, k int) ctInputs {
 		p, c := ctPoint(r, k)
